@@ -54,9 +54,6 @@ Proof.
 Qed.
 
 (** ** one redirection *)
-Definition cls1 (nc : bool) (w : world) (T : tbl) (r : redir) : bool :=
-  both_clobber nc w T [r] || selfdup_closed nc w T [r].
-
 Definition rel_res (P : tbl) (a : (world * tbl) + rerr) (b : (world * tbl) + rerr) : Prop :=
   match a, b with
   | inl (w1, L1), inl (w2, T2) => w1 = w2 /\ agree T2 L1 P
@@ -65,30 +62,28 @@ Definition rel_res (P : tbl) (a : (world * tbl) + rerr) (b : (world * tbl) + rer
   end.
 
 Lemma both_refines nc w T L P p app :
-  agree T L P -> (app = false -> nc && is_file w p = false) ->
-  rel_res P (both_to w L p app) (spec_redirect 2 nc w T (RBoth p app)).
+  agree T L P ->
+  rel_res P (both_to nc w L p app) (spec_redirect 2 nc w T (RBoth p app)).
 Proof.
-  intros HA Hc. unfold both_to. cbn [spec_redirect].
+  intros HA. unfold both_to. cbn [spec_redirect].
   destruct app.
   - cbn [spec_open negb]. rewrite <- (k_open_w_irrelevant w p false false false true false).
     destruct (k_open w p (fl false false true false true false)) as [w' [id|e]] eqn:E; cbn.
     + unfold sys_install. split; auto.
       apply agree_tset. apply agree_tset. exact HA.
     + reflexivity.
-  - cbn [spec_open negb]. rewrite (Hc eq_refl).
-    destruct (k_open w p (fl false true false true true false)) as [w' [id|e]] eqn:E; cbn.
+  - rewrite open_same.
+    destruct (spec_open nc w RWrite p) as [w' [id|e]] eqn:E; cbn.
     + unfold sys_install. split; auto.
       apply agree_tset. apply agree_tset. exact HA.
     + reflexivity.
 Qed.
 
 Lemma step_refines nc P w L T r :
-  agree T L P -> cls1 nc w T r = false ->
+  agree T L P ->
   rel_res P (setup_redirect nc P w L r) (spec_redirect1 nc w T r).
 Proof.
-  intros HA Hc. unfold cls1 in Hc. apply orb_false_iff in Hc. destruct Hc as [Hb Hs].
-  cbn [both_clobber selfdup_closed] in Hb, Hs. apply orb_false_iff in Hb, Hs.
-  destruct Hb as [Hb _], Hs as [Hs _].
+  intros HA.
   unfold spec_redirect1. destruct r as [n k p|n out src|n out|p app|n p|n body|n s]; cbn [setup_redirect].
   - (* file *) cbn [spec_redirect]. rewrite open_same.
     destruct (spec_open nc w k p) as [w' [id|e]]; cbn; auto.
@@ -98,15 +93,12 @@ Proof.
   - (* dup *) cbn [spec_redirect]. unfold default_dup_fd.
     set (dst := match n with Some n0 => n0 | None => if out then 1 else 0 end) in *.
     destruct (Nat.eqb src dst) eqn:E.
-    + apply Nat.eqb_eq in E. rewrite <- (HA src).
-      destruct (flat_lookup T src) as [id|] eqn:Es.
-      * cbn. split; auto. rewrite <- E. apply agree_same; auto.
-      * cbn in Hs. discriminate.
+    + cbn. split; auto.
     + unfold sys_dup2. rewrite <- (HA src). destruct (flat_lookup T src) as [id|]; cbn; auto.
       split; auto. apply agree_tset; auto.
   - (* close *) cbn [spec_redirect]. cbn. split; auto. unfold sys_close, default_dup_fd. apply agree_close; auto.
   - (* both *) change (spec_redirect 3 nc w T (RBoth p app)) with (spec_redirect 2 nc w T (RBoth p app)).
-    apply both_refines; auto. intros ->. exact Hb.
+    apply both_refines; auto.
   - (* >&word *) cbn [spec_redirect].
     destruct n as [[|[|k]]|]; cbn [Nat.eqb].
     + reflexivity.
@@ -120,38 +112,15 @@ Proof.
 Qed.
 
 (** ** redirection lists: the layered application refines the flat one *)
-Lemma cls_cons_both nc w T r rs :
-  both_clobber nc w T (r :: rs) = false ->
-  both_clobber nc w T [r] = false /\
-  (forall w' T', spec_redirect1 nc w T r = inl (w', T') -> both_clobber nc w' T' rs = false).
-Proof.
-  cbn [both_clobber]. intros H. apply orb_false_iff in H. destruct H as [H1 H2]. split.
-  - rewrite H1. destruct (spec_redirect1 nc w T r) as [[? ?]|]; reflexivity.
-  - intros w' T' E. rewrite E in H2. exact H2.
-Qed.
-
-Lemma cls_cons_self nc w T r rs :
-  selfdup_closed nc w T (r :: rs) = false ->
-  selfdup_closed nc w T [r] = false /\
-  (forall w' T', spec_redirect1 nc w T r = inl (w', T') -> selfdup_closed nc w' T' rs = false).
-Proof.
-  cbn [selfdup_closed]. intros H. apply orb_false_iff in H. destruct H as [H1 H2]. split.
-  - rewrite H1. destruct (spec_redirect1 nc w T r) as [[? ?]|]; reflexivity.
-  - intros w' T' E. rewrite E in H2. exact H2.
-Qed.
-
 Theorem layered_refines_flat : forall rs nc P w L T,
   agree T L P ->
-  both_clobber nc w T rs = false -> selfdup_closed nc w T rs = false ->
   let '(w1, L1, e1) := apply_redirs nc P w L rs in
   let '(w2, T2, e2) := spec_apply nc w T rs in
   w1 = w2 /\ e1 = e2 /\ agree T2 L1 P.
 Proof.
-  induction rs as [|r rs IH]; intros nc P w L T HA Hb Hs; cbn [apply_redirs spec_apply].
+  induction rs as [|r rs IH]; intros nc P w L T HA; cbn [apply_redirs spec_apply].
   - auto.
-  - apply cls_cons_both in Hb. apply cls_cons_self in Hs. destruct Hb as [Hb1 Hb2], Hs as [Hs1 Hs2].
-    assert (Hstep := step_refines nc P w L T r HA).
-    unfold cls1 in Hstep. rewrite Hb1, Hs1 in Hstep. specialize (Hstep eq_refl).
+  - assert (Hstep := step_refines nc P w L T r HA).
     unfold rel_res in Hstep.
     destruct (setup_redirect nc P w L r) as [[w1 L1]|e1]; destruct (spec_redirect1 nc w T r) as [[w2 T2]|e2];
       try contradiction.
@@ -250,7 +219,7 @@ Proof.
         cbn [flags_of]. unfold k_open. unfold file_at in Hf. rewrite Hf, Hex. cbn. exact I.
       * pose proof (k_open_other w q (flags_of true (is_file w q) RWrite) p Hne) as Ho.
         destruct (k_open w q (flags_of true (is_file w q) RWrite)) as [w' [id|e]]; cbn in *; auto. congruence.
-  - destruct (try_fd L P src); auto.
+  - destruct (Nat.eqb src _); auto. destruct (try_fd L P src); auto.
   - auto.
   - pose proof (k_pipe_keeps w body p f Hf). destruct (k_pipe_with w body); cbn in *; auto.
   - pose proof (k_pipe_keeps w (s ++ [NL]) p f Hf). destruct (k_pipe_with w (s ++ [NL])); cbn in *; auto.
@@ -312,7 +281,7 @@ End CmdInd.
 Lemma run_cmd_group nc m k body rs w P L :
   run_cmd nc m (CGroup k body rs) w P L =
   match apply_redirs nc P w L rs with
-  | (w1, _, Some e) => let '(kd, a) := err_kind e in (w1, P, FAbort kd a)
+  | (w1, L1, Some e) => let '(w2, f) := simple_redirect_error m w1 L1 P e in (w2, P, f)
   | (w1, L1, None) =>
       match k with
       | GBrace => run_list nc m body w1 P L1
@@ -334,7 +303,11 @@ Lemma run_cmd_func nc m body drs crs w P L :
   | (w1, L1, Some e) => let '(w2, f) := simple_redirect_error m w1 L1 P e in (w2, P, f)
   | (w1, L1, None) =>
       match apply_redirs nc P w1 L1 drs with
-      | (w2, _, Some e) => let '(kd, a) := err_kind e in (put w2 (try_fd L1 P) 2 (msg m 1 kd a), P, FNormal)
+      | (w2, L2, Some e) =>
+          match simple_redirect_error m w2 L2 P e with
+          | (w3, FNormal) => (w3, P, FNormal)
+          | (w3, FAbort kd a) => (put w3 (try_fd L1 P) 2 (msg m 1 kd a), P, FNormal)
+          end
       | (w2, L2, None) =>
           match run_list nc m body w2 P L2 with
           | (w3, P3, FNormal) => (w3, P3, FNormal)
@@ -377,7 +350,7 @@ Proof.
   - discriminate.
   - rewrite run_cmd_group. cbn [no_exec] in Hn.
     destruct (apply_redirs nc P w L rs) as [[w1 L1] [e|]].
-    + destruct (err_kind e); reflexivity.
+    + destruct (simple_redirect_error m w1 L1 P e); reflexivity.
     + pose proof (run_list_keeps nc m body H Hn) as HK.
       destruct k.
       * apply HK.
@@ -388,7 +361,7 @@ Proof.
     destruct (apply_redirs nc P w L crs) as [[w1 L1] [e|]].
     + destruct (simple_redirect_error m w1 L1 P e); reflexivity.
     + destruct (apply_redirs nc P w1 L1 drs) as [[w2 L2] [e|]].
-      * destruct (err_kind e); reflexivity.
+      * destruct (simple_redirect_error m w2 L2 P e) as [w3 [|kd a]]; reflexivity.
       * pose proof (run_list_keeps nc m body H Hn w2 P L2) as HK.
         destruct (run_list nc m body w2 P L2) as [[w3 P3] f]; cbn in HK; subst P3. destruct f; reflexivity.
 Qed.
@@ -429,13 +402,12 @@ Qed.
 (** [exec rs] at the top level (no enclosing layer): afterwards the shell's table is the flat
     table the specification computes for [rs]. *)
 Theorem exec_persists : forall nc m rs w P,
-  both_clobber nc w P rs = false -> selfdup_closed nc w P rs = false ->
   let '(w1, P1, f) := run_cmd nc m (CExec rs) w P [] in
   let '(w2, T2, e) := spec_apply nc w P rs in
   e = None -> w1 = w2 /\ f = FNormal /\ forall n, flat_lookup P1 n = flat_lookup T2 n.
 Proof.
-  intros nc m rs w P Hb Hs. cbn [run_cmd].
-  pose proof (layered_refines_flat rs nc P w [] P (fun n => eq_sym (try_fd_nil P n)) Hb Hs) as HR.
+  intros nc m rs w P. cbn [run_cmd].
+  pose proof (layered_refines_flat rs nc P w [] P (fun n => eq_sym (try_fd_nil P n))) as HR.
   destruct (apply_redirs nc P w [] rs) as [[w1 L1] e1]. destruct (spec_apply nc w P rs) as [[w2 T2] e2].
   destruct HR as [-> [-> HA]]. destruct e2 as [e|].
   - destruct (simple_redirect_error m w2 L1 P e). intros; discriminate.
@@ -443,25 +415,39 @@ Proof.
 Qed.
 
 (** ** what an external command receives *)
-Lemma dupflag id n : Nat.ltb id 3 && negb (Nat.eqb id n) = false -> Nat.ltb id 3 = true -> id = n.
-Proof. intros H E. rewrite E in H. cbn [andb] in H. apply negb_false_iff in H. apply Nat.eqb_eq in H. exact H. Qed.
-
 Theorem child_sees_view_outside_known : forall L P T,
-  agree T L P ->
-  k_std_dup (std_flags T) = false -> k_std_closed (std_flags T) = false ->
+  agree T L P -> k_std_closed (std_flags T) = false ->
   forall n, child_view L P n = flat_lookup T n.
 Proof.
-  intros L P T HA Hd Hc n. unfold child_view, is_std.
+  intros L P T HA Hc n. unfold child_view.
   destruct (Nat.ltb n 3) eqn:En; [|symmetry; apply HA].
   rewrite <- (HA n).
   assert (Hn : n = 0 \/ n = 1 \/ n = 2) by (apply Nat.ltb_lt in En; lia).
-  unfold std_flags in Hd, Hc; cbn [k_std_dup k_std_closed] in Hd, Hc.
+  unfold std_flags in Hc; cbn [k_std_closed] in Hc.
   destruct (flat_lookup T 0) as [i0|] eqn:E0; [|discriminate].
   destruct (flat_lookup T 1) as [i1|] eqn:E1; [|discriminate].
   destruct (flat_lookup T 2) as [i2|] eqn:E2; [|discriminate].
-  apply orb_false_iff in Hd. destruct Hd as [Hd Hd2]. apply orb_false_iff in Hd. destruct Hd as [Hd0 Hd1].
-  destruct Hn as [->|[->| ->]].
-  - rewrite E0. destruct (Nat.ltb i0 3) eqn:El; auto. cbn [andb] in Hd0. apply negb_false_iff in Hd0. apply Nat.eqb_eq in Hd0. subst; auto.
-  - rewrite E1. destruct (Nat.ltb i1 3) eqn:El; auto. cbn [andb] in Hd1. apply negb_false_iff in Hd1. apply Nat.eqb_eq in Hd1. subst; auto.
-  - rewrite E2. destruct (Nat.ltb i2 3) eqn:El; auto. cbn [andb] in Hd2. apply negb_false_iff in Hd2. apply Nat.eqb_eq in Hd2. subst; auto.
+  destruct Hn as [->|[->| ->]]; [rewrite E0|rewrite E1|rewrite E2]; reflexivity.
 Qed.
+
+(** ** regression examples for the repaired defects *)
+Definition ex_world2 : world :=
+  {| files := files ex_world ++ []; descs := descs ex_world |}.
+(** [&>f] under noclobber on an existing regular file is refused and the file is untouched *)
+Example regress_andgreater_noclobber :
+  setup_redirect true ex_tbl ex_world [] (RBoth 2 false) = inr (EOpenFail 2 EEXIST).
+Proof. vm_compute. reflexivity. Qed.
+(** [4>&4] with 4 closed is a no-op *)
+Example regress_selfdup_closed :
+  setup_redirect false ex_tbl ex_world [] (RDup (Some 4) true 4) = inl (ex_world, []).
+Proof. vm_compute. reflexivity. Qed.
+(** after [2>&1] an external command gets the shell's stdout (description 1) on 2 *)
+Example regress_std_dup :
+  child_view [(2, Some 1)] ex_tbl 2 = Some 1.
+Proof. vm_compute. reflexivity. Qed.
+(** a failing redirection on a brace group fails only that command: the next one runs *)
+Example regress_compound_failure_continues :
+  let '(w, _) := run_script false [] [CGroup GBrace [CSimple [] (AEcho [105]%N)] [RDup None true 7];
+                                      CSimple [] (AEcho [97]%N)] ex_world ex_tbl in
+  nth_error (files w) 2 = Some {| f_exists := true; f_regular := true; f_data := [97; 10]%N |}.
+Proof. vm_compute. reflexivity. Qed.
